@@ -88,7 +88,84 @@ def layout_case(tname, n_new, approved, leafvals):
     return True
 
 
-GLB = {"layout_case": layout_case, "__name__": "harness.c03b"}
+IMPORT_FILES = {
+    # the kind of change decides the order in which the session handles the files (grouped changes are applied last)
+    "needs_create": "from inline_snapshot import snapshot\n\ndef test_n():\n    assert [x0, odd] == snapshot()\n",
+    "needs_replace": "from inline_snapshot import snapshot\n\ndef test_n():\n    assert [x0, odd] == snapshot(c0)\n",
+    "plain_replace": "from inline_snapshot import snapshot\n\ndef test_p():\n    assert x1 == snapshot(c0)\n",
+    "plain_create": "from inline_snapshot import snapshot\n\ndef test_p():\n    assert x1 == snapshot()\n",
+}
+
+
+DOC_FILES = {
+    "docstring_future": '"""module doc"""\nfrom __future__ import annotations\nfrom inline_snapshot import snapshot\n\ndef test_n():\n    assert [x0, odd] == snapshot()\n',
+    "docstring_code": '"""module doc"""\n\nx = 1\nfrom inline_snapshot import snapshot\n\ndef test_n():\n    assert [x0, odd] == snapshot()\n',
+    "comment_docstring_local_import": '# comment\n"""module doc"""\n\ndef test_n():\n    from inline_snapshot import snapshot\n    assert [x0, odd] == snapshot()\n',
+    "imports_then_code": 'import os\nfrom inline_snapshot import snapshot  # trailing\nimport sys; y = 2\n\ndef test_n():\n    assert [x0, odd] == snapshot()\n',
+}
+
+
+def import_position_case(fname, leafvals):
+    """the inserted import keeps the file valid (it compiles, the module docstring stays the docstring, __future__ imports
+    stay first) and is the only edit outside the snapshot arguments"""
+    import ast as _ast
+
+    from harness.support import Weird
+
+    world.install_plugin_shims()
+    ns = dict(leafvals)
+    ns["odd"] = Weird(1)
+    world.reset(ns)
+    r = world.plugin_session({"test_1.py": DOC_FILES[fname]}, cli="create")
+    if r.finish_error is not None:
+        return False
+    with world.NoTracing():
+        before, after = str(r.texts["test_1.py"]), str(world.text_after(r, "test_1.py"))
+        PathLog.record("importpos" + fname + after, nontrivial=True, sample={"file": fname, "rewritten_head": after[:200]})
+        try:
+            compile(after, "test_1.py", "exec")
+        except SyntaxError:
+            return False
+        if _ast.get_docstring(_ast.parse(after)) != _ast.get_docstring(_ast.parse(before)):
+            return False
+        if after.count("from inline_snapshot import HasRepr") != 1:
+            return False
+        return world.mask_snapshot_args(after.replace("\nfrom inline_snapshot import HasRepr\n", "", 1)) == world.mask_snapshot_args(before)
+
+
+def import_case(order, leafvals):
+    """a session that rewrites several files: the file whose new code needs `HasRepr` gets exactly that import line, a file
+    that needs nothing is untouched outside its snapshot arguments (whatever the order of the files)"""
+    from harness.support import Weird
+
+    world.install_plugin_shims()
+    ns = dict(leafvals)
+    ns["odd"] = Weird(1)
+    world.reset(ns)
+    names = ["test_1.py", "test_2.py"]
+    kinds = [["needs_create", "plain_replace"], ["plain_replace", "needs_create"], ["needs_replace", "plain_create"], ["plain_create", "needs_replace"],
+             ["needs_create", "plain_create"], ["needs_replace", "plain_replace"]][order]
+    files = {n: IMPORT_FILES[k] for n, k in zip(names, kinds)}
+    r = world.plugin_session(files, cli="create,fix")
+    if r.finish_error is not None:
+        return False
+    ok = True
+    with world.NoTracing():
+        for n, k in zip(names, kinds):
+            before, after = str(r.texts[n]), str(world.text_after(r, n))
+            if k.startswith("plain"):
+                if world.mask_snapshot_args(before) != world.mask_snapshot_args(after):
+                    ok = False
+            else:
+                if after.count("from inline_snapshot import HasRepr") != 1:
+                    ok = False
+                if world.mask_snapshot_args(after.replace("\nfrom inline_snapshot import HasRepr\n", "", 1)) != world.mask_snapshot_args(before):
+                    ok = False
+        PathLog.record("imports" + str(kinds) + str(sorted(r.written)), nontrivial=True, sample={"files": kinds, "rewritten": {n: world.text_after(r, n)[:120] for n in names}})
+    return ok
+
+
+GLB = {"layout_case": layout_case, "import_case": import_case, "import_position_case": import_position_case, "__name__": "harness.c03b"}
 
 
 def conditions(tier):
@@ -106,6 +183,14 @@ def conditions(tier):
                 name = f"layout_{tname}_n{n_new}_{''.join(sorted(c[0] for c in sub)) or 'none'}"
                 conds.append(Cond(name, mkfn(name, [(n, "int") for n in names], body, GLB), timeout=600, group="layout-" + tname,
                                   bounds=f"template `{tname}` (fixed layout), list [c0, c1] vs {n_new} observed ints, bound c2 vs x0, approved {sorted(sub)}; all values symbolic"))
+    for fname in DOC_FILES:
+        name = f"import_position_{fname}"
+        conds.append(Cond(name, mkfn(name, [("x0", "int")], f"return import_position_case({fname!r}, {{'x0': x0}})", GLB), timeout=600, group="imports",
+                          bounds=f"file layout `{fname}`: the HasRepr import is inserted; the file compiles, keeps its docstring, nothing else changes"))
+    for order in range(6):
+        name = f"imports_{order}"
+        conds.append(Cond(name, mkfn(name, [("x0", "int"), ("x1", "int"), ("c0", "int")], f"return import_case({order}, {{'x0': x0, 'x1': x1, 'c0': c0}})", GLB), timeout=600, group="imports",
+                          bounds="two files rewritten in one real session (plugin hooks): one needs the HasRepr import, the other needs nothing; 6 combinations of file order and change kind (create = grouped call argument, fix = immediate replace)"))
     body = "return layout_case('multiline_comments', 3, {'fix'}, {'c0': c0, 'c1': c1, 'c2': c2, 'c3': c3, 'x0': x0, 'y0': y0, 'y1': y1, 'y2': y2})"
     conds.append(Cond("layout_twin", mkfn("layout_twin", [(n, "int") for n in ["c0", "c1", "c2", "c3", "x0", "y0", "y1", "y2"]], body, GLB, post="not _"), timeout=60, twin=True))
     return conds
